@@ -8,6 +8,15 @@ MCProgs == { <<Sw("inc")>>, <<Sw("inc"), Sw("inc")>>, <<Sw("dbl")>>, <<Sw("throw
              <<C("cas", "-", IntV(0), IntV(1))>>, <<C("cas", "-", IntV(1), IntV(7)), C("deref", "-", NilV, NilV)>>,
              <<C("swapvals", "inc", NilV, NilV)>>, <<C("resetvals", "-", IntV(2), NilV)>>,
              <<C("deref", "-", NilV, NilV), Sw("inc")>> }
+(* programs for spec -> code replay: no not-self-equal values (whether two of them are the identical object
+   depends on the concrete update function; that aspect is covered by the code -> spec direction) *)
+GenProgs == { <<Sw("inc")>>, <<Sw("inc"), Sw("inc")>>, <<Sw("dbl")>>, <<Sw("throw")>>,
+              <<Rs(IntV(5))>>, <<Rs(IntV(1)), Sw("inc")>>, <<Rs(IntV(1))>>,
+              <<C("cas", "-", IntV(0), IntV(1))>>, <<C("cas", "-", IntV(1), IntV(7)), C("deref", "-", NilV, NilV)>>,
+              <<C("swapvals", "inc", NilV, NilV)>>, <<C("resetvals", "-", IntV(2), NilV)>>,
+              <<C("deref", "-", NilV, NilV), Sw("inc")>> }
+GenProgs3 == { <<Sw("inc")>>, <<Rs(IntV(1))>>, <<C("cas", "-", IntV(0), IntV(2))>>, <<Sw("dbl")>>,
+               <<C("swapvals", "inc", NilV, NilV)>> }
 MCInit == IntV(0)
 T2 == {1, 2}
 T3 == {1, 2, 3}
